@@ -48,7 +48,7 @@ Print Assumptions C01_value_parser_terminates.
 Theorem C01_expression_parser_never_moves_backwards : forall fuel s,
   match parse_cond_fuel fuel s with
   | POk _ rest => (length rest <= length s)%nat
-  | PFail pos => (length pos <= length s)%nat
+  | PFail pos _ => (length pos <= length s)%nat
   end.
 Proof. exact parse_cond_fuel_le. Qed.
 Print Assumptions C01_expression_parser_never_moves_backwards.
